@@ -56,7 +56,8 @@ DETACHERS = ("std::mem::take", "std::mem::replace", "std::option::Option::<T>::t
 DERIVING = ("clone::Clone>::clone", "::cheap_clone", "::clone", "Deref>::deref", "DerefMut>::deref_mut", "::next", "::iter",
             "::iter_mut", "IntoIterator>::into_iter", "::as_ref", "::as_mut", "::unwrap", "::expect", "Index<I>>::index",
             "::get", "::as_slice", "::borrow", "::first", "::last", "::values", "::keys", "::enumerate", "::rev",
-            "::peekable", "::as_deref", "::cloned", "::copied", "::into_iter")
+            "::peekable", "::as_deref", "::cloned", "::copied", "::into_iter", "Iterator::filter", "Iterator::filter_map", "Iterator::map",
+            "Iterator::skip", "Iterator::take", "Iterator::chain", "Iterator::flatten")
 
 
 def derives(c):
@@ -223,12 +224,37 @@ class Flow:
             for (cb, cont) in self.derive_chain(vop[1][0])[1]:
                 self.loop_guards.setdefault(cb, []).append((cont, g))
 
+        # the same through an iterator chain: `C.iter().filter_map(..).for_each(|o| guard.guard(o.clone()))` - the closure handed to for_each
+        # roots what it is given in a guard it captured
+        for bi, t in f.calls():
+            if not (t[1].get("u") or "").endswith(("Iterator::for_each", "Iterator::try_for_each")) or len(t[2]) < 2:
+                continue
+            it, cl = t[2][0], t[2][1]
+            if it[0] not in ("c", "m") or cl[0] not in ("c", "m"):
+                continue
+            cd = f.defs().get(cl[1][0], [])
+            if len(cd) != 1 or cd[0][1] == "T" or cd[0][2][0] != "agg" or not isinstance(cd[0][2][1], dict) or cd[0][2][1].get("k") != "closure":
+                continue
+            body = fx.fns.get(cd[0][2][1].get("p"))
+            if body is None or not any((t2[1].get("d") or "") == "gc::Guard::<T>::guard" for _, t2 in body.calls()):
+                continue
+            g = None
+            for cap in cd[0][2][2]:
+                if cap[0] in ("c", "m") and "Guard<" in fx.tys(f.locals[cap[1][0]]):
+                    g = self.deref_local(cap[1][0])
+            for (cb, cont) in self.derive_chain(it[1][0])[1]:
+                self.loop_guards.setdefault(cb, []).append((cont, g))
+
     # ---- helpers
     def deref_local(self, local, depth=0):
         """the local a reference local points to (whole local or its field), or None"""
         pl = self.refs.get(local)
         if pl is None:
             d = self.f.defs().get(local, [])
+            if depth < 6 and len(d) == 1 and d[0][1] == "T" and (d[0][2][1].get("u") or "").endswith(("Deref::deref", "DerefMut::deref_mut")) \
+                    and d[0][2][2] and d[0][2][2][0][0] in ("c", "m") and not d[0][2][2][0][1][1]:
+                # `&*vec` as a slice: what the Vec's deref hands out is the Vec's contents
+                return self.deref_local(d[0][2][2][0][1][0], depth + 1)
             if depth < 6 and len(d) == 1 and d[0][1] != "T":
                 rv = d[0][2]
                 op = rv[1] if rv[0] == "use" else (rv[2] if rv[0] == "cast" else None)
